@@ -44,6 +44,12 @@ class LinalgX:
         return symla.solve(a, b)
 
     def inv(self, a):
+        a = _np.asarray(a)
+        if a.dtype == object and a.ndim > 2:             # numpy.linalg.inv broadcasts over leading dimensions
+            out = _np.empty(a.shape, dtype=object)
+            for idx in _np.ndindex(*a.shape[:-2]):
+                out[idx] = symla.inv(a[idx])
+            return out.view(alg.SymArr)
         return symla.inv(a)
 
     def det(self, a):
@@ -105,6 +111,33 @@ class NPX(alg.NumpyProxy):
         if a.dtype != object and b.dtype != object:
             return _np.cross(a, b, **k)
         return _np.array([a[1] * b[2] - a[2] * b[1], a[2] * b[0] - a[0] * b[2], a[0] * b[1] - a[1] * b[0]], dtype=object).view(alg.SymArr)
+
+    def _ext(self, a, b, f):
+        if isinstance(a, alg.S) or isinstance(b, alg.S):
+            return alg.S(f(alg.expr_of(a), alg.expr_of(b)))
+        aa, bb = _np.asarray(a), _np.asarray(b)
+        if aa.dtype == object or bb.dtype == object:
+            bc = _np.broadcast(aa, bb)
+            out = _np.empty(bc.shape, dtype=object)
+            out.flat = [alg.S(f(alg.expr_of(x), alg.expr_of(y))) for x, y in bc]
+            return out.view(alg.SymArr) if bc.shape else out.item()
+        return None
+
+    def fmax(self, a, b, **k):
+        r = self._ext(a, b, sp.Max)
+        return _np.fmax(a, b, **k) if r is None else r
+
+    def fmin(self, a, b, **k):
+        r = self._ext(a, b, sp.Min)
+        return _np.fmin(a, b, **k) if r is None else r
+
+    def maximum(self, a, b, **k):
+        r = self._ext(a, b, sp.Max)
+        return _np.maximum(a, b, **k) if r is None else r
+
+    def minimum(self, a, b, **k):
+        r = self._ext(a, b, sp.Min)
+        return _np.minimum(a, b, **k) if r is None else r
 
     def arctan2(self, y, x):
         if isinstance(y, alg.S) or isinstance(x, alg.S):
